@@ -89,6 +89,7 @@ impl CaseOut {
 pub struct Env {
     node: Option<Server>,
     python: Option<Server>,
+    py_scripts: std::collections::HashMap<String, Server>,
     pub tier: Tier,
     pub seed: u64,
     /// strict replay mode: known-finding tolerance is off
@@ -97,13 +98,21 @@ pub struct Env {
 
 impl Env {
     pub fn new(tier: Tier, seed: u64) -> Self {
-        Self { node: None, python: None, tier, seed, replay: false }
+        Self { node: None, python: None, py_scripts: Default::default(), tier, seed, replay: false }
     }
     pub fn node(&mut self) -> Result<&mut Server, String> {
         if self.node.is_none() {
             self.node = Some(Server::node().map_err(|e| format!("cannot start node: {e}"))?);
         }
         Ok(self.node.as_mut().unwrap())
+    }
+    /// A persistent python3 server running /verif/oracle/<script> (JSON lines).
+    pub fn py(&mut self, script: &str) -> Result<&mut Server, String> {
+        if !self.py_scripts.contains_key(script) {
+            let s = Server::python_script(script).map_err(|e| format!("cannot start python3 {script}: {e}"))?;
+            self.py_scripts.insert(script.to_string(), s);
+        }
+        Ok(self.py_scripts.get_mut(script).unwrap())
     }
     pub fn python(&mut self) -> Result<&mut Server, String> {
         if self.python.is_none() {
@@ -175,13 +184,26 @@ pub struct Known {
 }
 
 pub fn load_known() -> Vec<Known> {
-    let path = format!("{}/KNOWN_FINDINGS.json", verif_root());
-    let Ok(text) = std::fs::read_to_string(&path) else { return vec![] };
-    let Ok(v) = serde_json::from_str::<Value>(&text) else {
-        eprintln!("warning: {path} does not parse");
-        return vec![];
-    };
+    let mut paths = vec![format!("{}/KNOWN_FINDINGS.json", verif_root())];
+    if let Ok(rd) = std::fs::read_dir(format!("{}/known.d", verif_root())) {
+        let mut extra: Vec<String> = rd.filter_map(|e| e.ok()).map(|e| e.path().to_string_lossy().to_string()).filter(|p| p.ends_with(".json")).collect();
+        extra.sort();
+        paths.extend(extra);
+    }
     let mut out = vec![];
+    for path in paths {
+        let Ok(text) = std::fs::read_to_string(&path) else { continue };
+        let Ok(v) = serde_json::from_str::<Value>(&text) else {
+            eprintln!("warning: {path} does not parse");
+            continue;
+        };
+        load_known_from(&v, &mut out);
+    }
+    out
+}
+
+fn load_known_from(v: &Value, out: &mut Vec<Known>) {
+    {
     for e in v["findings"].as_array().cloned().unwrap_or_default() {
         let g = |k: &str| e[k].as_str().unwrap_or("").to_string();
         out.push(Known {
@@ -195,7 +217,7 @@ pub fn load_known() -> Vec<Known> {
             commit: e["commit"].as_str().map(str::to_string),
         });
     }
-    out
+    }
 }
 
 pub fn match_known<'a>(known: &'a [Known], prop: &str, sig: &str) -> Option<&'a Known> {
